@@ -116,6 +116,16 @@ Theorem C17_l003_check_exact : forall t n col,
 Proof. exact (l003_check_exact space 1). Qed.
 Theorem C17_l003_location : forall t n col, In (n, col) (i_l003_check t) -> 1 <= n <= length (clines t) /\ col = 1.
 Proof. exact (l003_location space 1). Qed.
+(* L007 keyword case: a code word (maximal run of letters, digits, '_' of code that starts with a letter or '_' where no word
+   is running) that spells a keyword in another case; the column is the byte column of its first character *)
+Theorem C17_l007_check_exact : forall t n col,
+  In (n, col) (i_l007_check t) <->
+  exists fl pre wd post, nth_error (clines t) (n - 1) = Some fl /\ 1 <= n /\ code_word letter digit (snd fl) pre wd post /\
+    word_viol upper keywords_tab (chars wd) = true /\ col = S (blen (chars pre)).
+Proof. exact (l007_check_exact letter digit upper keywords_tab). Qed.
+Theorem C17_l007_location : forall t n col, In (n, col) (i_l007_check t) ->
+  exists fl, nth_error (clines t) (n - 1) = Some fl /\ 1 <= n <= length (clines t) /\ 1 <= col <= S (blen (chars (snd fl))).
+Proof. exact (l007_location letter digit upper keywords_tab). Qed.
 (* L005 long lines: a non-empty line that does not start with a comment opener and is longer than the limit, in bytes *)
 Theorem C17_l005_check_exact : forall mx t n col,
   In (n, col) (i_l005_check mx t) <->
@@ -159,6 +169,8 @@ Print Assumptions C17_l002_location.
 Print Assumptions C17_l003_check_exact.
 Print Assumptions C17_l003_location.
 Print Assumptions C17_l005_check_exact.
+Print Assumptions C17_l007_check_exact.
+Print Assumptions C17_l007_location.
 
 (* ---- non-vacuity: concrete, non-trivial texts; the fixers do change them, the literals are kept ---- *)
 Local Open Scope N_scope.
@@ -168,4 +180,6 @@ Example ex_cli : encode (i_cli_fix (decode ex_bytes)) =
   [83;69;76;69;67;84;32;39;97;32;32;10;10;10;9;98;32;32;39;10;10;32;32;32;32;70;82;79;77;32;116].
 Proof. vm_compute. reflexivity. Qed.
 Example ex_l001_flags : l001_check (decode ex_bytes) = [(4, 6); (7, 8)]%nat.
+Proof. vm_compute. reflexivity. Qed.
+Example ex_l007_flags : i_l007_check (decode ex_bytes) = [(1, 1); (7, 2)]%nat.
 Proof. vm_compute. reflexivity. Qed.
